@@ -57,6 +57,30 @@ func newEnv() *env.Env {
 	if err != nil {
 		panic(err)
 	}
+	// every value also sits in a named list and a named map that stay reachable; bump() overwrites all those places and returns 1:
+	// an operand that was read from one of them before bump() ran keeps the value it was read as
+	var lists [][]interface{}
+	var maps []map[interface{}]interface{}
+	for _, n := range e.GetValueSymbols() {
+		if !strings.HasPrefix(n, "v") {
+			continue
+		}
+		v, _ := e.Get(n)
+		l := []interface{}{v}
+		m := map[interface{}]interface{}{"k": v}
+		lists, maps = append(lists, l), append(maps, m)
+		e.Define("hl_"+n, l)
+		e.Define("hm_"+n, m)
+	}
+	e.Define("bump", func() int64 {
+		for _, l := range lists {
+			l[0] = int64(99)
+		}
+		for _, m := range maps {
+			m["k"] = int64(99)
+		}
+		return 1
+	})
 	return e
 }
 
